@@ -28,6 +28,12 @@ def _run(pid, mod, root, tier):
             base = qn.split(" (")[0]
             res.current_funcs.add(base)
             res.current_funcs.add(base.split(".")[-1])
+        try:
+            import inline
+            res.baseline_funcs = {e.split(":", 1)[1] for e in inline.load_inventory() if ":const " not in e}
+            res.baseline_funcs |= {b.split(".")[-1] for b in res.baseline_funcs}
+        except Exception:  # noqa - without the inventory nothing is recognised as "moved into a new helper"
+            res.baseline_funcs = None
         extra = mod.run(repo, res, tier) or {}
     except common.AnalysisError as e:
         err = e
